@@ -175,7 +175,7 @@ class VEPRecord():
                     # way (e.g., C -> TACC), which needs to be converted into
                     # start-inclusion (A -> ATAC) for variants on + strand genes.
                     ref = str(seq.seq[alt_start])
-                    if ref == allele[-1]:
+                    if ref == allele[-1] and alt_start > tx_start_genetic:
                         alt_start -= 1
                         alt_end = alt_start + 1
                         ref = str(seq.seq[alt_start])
